@@ -22,6 +22,9 @@ Lemma read_app0 : forall (pre t : list byte) st,
   read (pre ++ t) (length pre) st = (st, Ok (nth 0 t 0%N)).
 Proof. intros. rewrite <- (Nat.add_0_r (length pre)) at 1. apply read_app. lia. Qed.
 
+Lemma read_end : forall (s : list byte) st, read s (length s) st = (st, Ok 0%N).
+Proof. intros s st. unfold read. rewrite Nat.ltb_irrefl, Nat.eqb_refl. reflexivity. Qed.
+
 Lemma assert_nz_app : forall (pre t : list byte) (k : nat) st, (k <= length t)%nat -> nth k t 0%N <> 0%N ->
   assert_nz (pre ++ t) (length pre + k) st = (st, Ok tt).
 Proof.
@@ -105,6 +108,13 @@ Proof.
     replace (length pre + 1 + length fl)%nat with (length pre + S (length fl))%nat by lia. reflexivity.
 Qed.
 
+Lemma flags_loop_eval' : forall s pos (fl : list flag) (pre : list byte) (c : byte) (r : list byte) fuel opts dollar st,
+  s = pre ++ map flag_char fl ++ c :: r -> pos = length pre ->
+  not_flag c -> c <> 0%N -> c <> 36%N -> (is_digit c = true -> nth 0 r 0%N <> 36%N) ->
+  (length fl < fuel)%nat ->
+  flags_loop s fuel pos opts dollar st = (st, Ok ((pos + length fl)%nat, apply_flags fl opts, dollar)).
+Proof. intros; subst; apply flags_loop_eval; assumption. Qed.
+
 (* ---- decimal numbers *)
 Definition digit_value (w : Z) (ds : list byte) : Z := fold_left (fun a c => a * 10 + (Z.of_N c - 48)) ds w.
 
@@ -148,6 +158,13 @@ Proof.
     rewrite app_length. cbn [length digit_value fold_left].
     replace (length pre + 1 + length ds)%nat with (length pre + S (length ds))%nat by lia. reflexivity.
 Qed.
+
+Lemma number_loop_eval' : forall s pos (ds : list byte) (pre : list byte) (c : byte) (r : list byte) fuel msg w st,
+  s = pre ++ ds ++ c :: r -> pos = length pre ->
+  Forall (fun c => is_digit c = true) ds -> is_digit c = false -> c <> 0%N ->
+  0 <= w -> digit_value w ds <= INT_MAX -> (length ds < fuel)%nat ->
+  number_loop s fuel msg pos w st = (st, Ok ((pos + length ds)%nat, digit_value w ds)).
+Proof. intros; subst; apply number_loop_eval; assumption. Qed.
 
 (* the decimal rendering of IsoPrintf *)
 Lemma dec_digits_fuel_mono : forall f f' n, (N.to_nat (N.log2 n) < f)%nat -> (N.to_nat (N.log2 n) < f')%nat ->
